@@ -6,7 +6,9 @@ import svgcanon
 from common import hx, unhx
 from runner import PropertyCheck, Failure, Disagreement
 
-STRS = ["red", "#fff", "rgb(1,2,3)", "Arial, sans", "x y", "", "blue;stroke:1", "a<b&c", "url(#q)", "'q'"]
+STRS = ["red", "#fff", "rgb(1,2,3)", "Arial, sans", "x y", "", "blue;stroke:1", "a<b&c", "url(#q)", "'q'",
+        "x;}</style><circle cx=\"40\" cy=\"40\" r=\"30\"></circle><style>.y{", "Fira & Code", "a]]>b", "q\x01\ufffe",
+        "</style>", "<g>"]
 
 
 def canon_tree(e):
@@ -20,6 +22,7 @@ def geometry(root):
 
 class Check(PropertyCheck):
     id = "C18"
+    thorough_mult = 3
     lean_modules = ["Svgbob.Properties.C18"]
     assumptions = [
         "base style sheet (jss! macro output) captured from the implementation per settings value",
